@@ -21,10 +21,10 @@ if [ $res = ok ]; then
 fi
 if [ $res = ok ]; then
   cp $out/$x.demo_test.go demo_test.go
-  if go test -vet=off -count=1 -run TestDemo . >/tmp/seedverify.demo1 2>&1; then echo "demo PASSES with the change (should fail)"; res=demonotfail; fi
+  if go test ${DEMO_TAGS:+-tags $DEMO_TAGS} -vet=off -count=1 -run TestDemo . >/tmp/seedverify.demo1 2>&1; then echo "demo PASSES with the change (should fail)"; res=demonotfail; fi
   git checkout -- . ; git clean -fdq -e demo_test.go
   cp $out/$x.demo_test.go demo_test.go
-  if ! go test -vet=off -count=1 -run TestDemo . >/tmp/seedverify.demo2 2>&1; then echo "demo FAILS without the change (should pass)"; tail -5 /tmp/seedverify.demo2; res=demonotpass; fi
+  if ! go test ${DEMO_TAGS:+-tags $DEMO_TAGS} -vet=off -count=1 -run TestDemo . >/tmp/seedverify.demo2 2>&1; then echo "demo FAILS without the change (should pass)"; tail -5 /tmp/seedverify.demo2; res=demonotpass; fi
   rm -f demo_test.go
 fi
 echo "seedverify $id $x: $res"
